@@ -479,6 +479,11 @@ def run(repo, res):
     lv = [C.loads_value(repo, d) for d in (b'\x05', b'\x92\x01\x02', b'\xc3')]
     res.check('C14-R6', 'loads decodes the bytes it is given', lv == [(5, None), ([1, 2], None), (True, None)], F, 0,
               'loads(05), loads(92 01 02), loads(c3) must give 5, [1, 2], True; got %s' % (lv,), sample='loads(bytes) = unpack(BytesIO(bytes))')
+    ok, detail, ncalls = C.state_restoration(repo)
+    res.check('C14-R6', 'no call leaves a trace in the module state', ok, F, 0,
+              'the codec is a pure function of its argument: module-level variables of umsgpack must be the same after a call as before it, '
+              'also when the call fails inside nested containers; but %s - every later call in the process sees that' % detail,
+              sample='%d calls (7 failing part-way): module state unchanged' % ncalls)
     res.count('writer_rows', nw, floor=60)
     res.count('reader_rows', nr, floor=512)
     res.count('truncation_cases', ncut, floor=150)
